@@ -382,4 +382,38 @@ Section Source.
     | PI_dip d => dipole_points (negb electric) d
                     (match d with DPoint _ _ _ => length | _ => 1 end)
     end.
+
+  (* the keyword arguments of get_source_field: `kwargs.get(key, default)`.
+     Missing -> default; an explicit value -> THAT value (also when it is
+     falsy: strength 0 / 0.0 / 0j / False stays zero); an explicit None is
+     passed on and makes the Tx* constructor raise (strength: format of None;
+     length: float * None), except that `length` is read only for size 5 and
+     that `electric` is only tested for truth (None counts as False). *)
+  Inductive Kw (A : Type) : Type := KwMissing | KwNone | KwVal (v : A).
+  Arguments KwMissing {A}.
+  Arguments KwNone {A}.
+  Arguments KwVal {A} _.
+
+  Definition kw_electric (k : Kw bool) : bool :=
+    match k with KwMissing => true | KwNone => false | KwVal b => b end.
+
+  (* None = the call raises; else (electrodes, strength) of the Tx* instance *)
+  Definition gsf_plain (kstrength : Kw (F * F)) (klength : Kw F) (kelectric : Kw bool) (inp : PlainIn)
+    : option (list (P3 F) * (F * F)) :=
+    let is5 : bool := match inp with PI_dip (DPoint _ _ _) => true | _ => false end in
+    match kstrength with
+    | KwNone => None
+    | _ =>
+      let st : F * F := match kstrength with KwVal v => v | _ => (1, 0) end in
+      match klength with
+      | KwNone => if is5 then None
+                  else option_map (fun p => (p, st)) (plain_points (kw_electric kelectric) inp 1)
+      | _ =>
+        let len : F := match klength with KwVal v => v | _ => 1 end in
+        option_map (fun p => (p, st)) (plain_points (kw_electric kelectric) inp len)
+      end
+    end.
 End Source.
+Arguments KwMissing {A}.
+Arguments KwNone {A}.
+Arguments KwVal {A} _.
